@@ -42,13 +42,25 @@ def mutants():
             elif "error" in c:
                 det.append("%s: %s" % (pid, c["error"]))
         summ = m.get("summary", "").split(". ")[0][:160].replace("|", "/")
-        out.append("| %s | %s | %s | %s | %s |" % (name, summ, vtxt, ", ".join(det) or "**missed**", ", ".join("`%s`" % s for s in sigs[:3])))
+        missed = "**missed**"
+        if "equivalent on HEAD" in (m.get("note_by_verifier") or ""):
+            missed = "not detectable: equivalent on HEAD (see note_by_verifier in meta.json)"
+        out.append("| %s | %s | %s | %s | %s |" % (name, summ, vtxt, ", ".join(det) or missed, ", ".join("`%s`" % s for s in sigs[:3])))
     return "\n".join(out)
 
 
 if __name__ == "__main__":
     import sys
     what = sys.argv[1] if len(sys.argv) > 1 else "all"
+    if what == "fill":
+        import re as _re
+        dp = os.path.join(V, "DESIGN.md")
+        t = open(dp).read()
+        for tag, fn in (("FINDINGS", findings), ("MUTANTS", mutants)):
+            t = _re.sub(r"<!-- %s:BEGIN -->.*?<!-- %s:END -->" % (tag, tag),
+                        lambda m: "<!-- %s:BEGIN -->\n%s\n<!-- %s:END -->" % (tag, fn(), tag), t, flags=_re.S)
+        open(dp, "w").write(t)
+        sys.exit(0)
     if what in ("findings", "all"):
         print(findings())
     if what in ("mutants", "all"):
